@@ -485,7 +485,7 @@ class ExprMixin:
         if not isinstance(t, tuple):
             return None
         if t[0] in ("new", "bm", "func", "cls", "closure", "timer", "dfr", "exc", "tuple", "reg", "regtop",
-                    "loopcall", "encres"):
+                    "loopcall", "encres", "lambda", "partial", "attrgetter", "functable"):
             return True
         if t[0] in ("elem", "popped"):
             return True     # what a registry holds is a request object (emit() refuses a None stored into a registry)
@@ -501,6 +501,16 @@ class ExprMixin:
             k = self.truth(t, s)
             if k is not None:
                 yield from self.ev(n.body if k else n.orelse, s, fx)
+                continue
+            if (isinstance(n.body, ast.Constant) and n.body.value is None) != (isinstance(n.orelse, ast.Constant) and n.orelse.value is None):
+                # `x if c else None`: a value-or-nothing result that is tested for None later - the path forks on c, so that the
+                # side that has the value also has the fact c
+                text = ast.unparse(n.test)
+                for pol in (True, False):
+                    s2 = s.fork()
+                    s2.conds = s2.conds + (Cond(t, pol, fx.func.file, n.lineno, text),)
+                    self.assume(t, pol, s2)
+                    yield from self.ev(n.body if pol else n.orelse, s2, fx)
                 continue
             # undecidable test: both arms are evaluated, each under its own branch condition (no path fork)
             saved = s.conds
@@ -624,7 +634,8 @@ class ExprMixin:
         yield from self._comprehension(n, [n.key, n.value], st, fx)
 
     def e_Lambda(self, n, st, fx):
-        yield "ok", ("unk", "lambda"), st
+        # captured by value as of now (the locals a lambda of this code base closes over are not re-bound afterwards)
+        yield "ok", ("lambda", n, tuple(sorted((k, v) for k, v in st.env.items() if isinstance(k, str))), st.uid()), st
 
     def e_Starred(self, n, st, fx):
         yield from self.ev(n.value, st, fx)
